@@ -928,6 +928,7 @@ func (e *Engine) resultTypeOf(key string) (types.Type, bool) {
 // maintenance", not "the property is violated".
 type Shape struct {
 	LoopSigs []string `json:"loopsigs,omitempty"` // source form of each loop header, in loop-ordinal order
+	SrcLoops int      `json:"srcloops"`           // for / range statements in the source of the function (not of its closures)
 	Params   []string `json:"params"`
 	Loops    int      `json:"loops"`
 	Closures int      `json:"closures"`
@@ -946,6 +947,7 @@ func (e *Engine) shapeOf(fn *ssa.Function) Shape {
 	}
 	sort.Strings(sh.FreeVars)
 	sh.LoopSigs = e.loopSigs(fn, sh.Loops)
+	sh.SrcLoops = len(e.loopSigs(fn, -1))
 	sh.Params = []string{}
 	for _, p := range fn.Params {
 		sh.Params = append(sh.Params, p.Name())
@@ -1126,6 +1128,7 @@ func (e *Engine) loopSigs(fn *ssa.Function, nloops int) []string {
 	if syn == nil || nloops == 0 {
 		return nil
 	}
+	// nloops < 0: all loop statements of the source, whether or not they are loops of the SSA form
 	var body *ast.BlockStmt
 	switch x := syn.(type) {
 	case *ast.FuncDecl:
@@ -1156,7 +1159,7 @@ func (e *Engine) loopSigs(fn *ssa.Function, nloops int) []string {
 		}
 		return true
 	})
-	if len(sigs) != nloops {
+	if nloops >= 0 && len(sigs) != nloops {
 		return nil
 	}
 	return sigs
@@ -1197,6 +1200,24 @@ func (e *Engine) remapLoops(base map[string]Shape) {
 					m[i+1] = j + 1
 					break
 				}
+			}
+		}
+		// loops whose header was edited: if as many baseline loops as current loops remain unmatched,
+		// they correspond in order
+		var ub, uc []int
+		for i := range b.LoopSigs {
+			if m[i+1] >= 1000 {
+				ub = append(ub, i)
+			}
+		}
+		for j := range cur.LoopSigs {
+			if !used[j] {
+				uc = append(uc, j)
+			}
+		}
+		if len(ub) == len(uc) {
+			for x := range ub {
+				m[ub[x]+1] = uc[x] + 1
 			}
 		}
 		tr := func(n int) int {
